@@ -1377,7 +1377,18 @@ pub fn mls_family_case(rng: &mut Rng) -> String {
         3 => format!("Result := [{}{}{}];", pre_gap.trim_start_matches(' '), lit, tail),
         _ => format!("const S ={}{}{};", pre_gap, lit, tail),
     };
-    match rng.below(7) {
+    match rng.below(9) {
+        7 | 8 => {
+            // the statement is shared by the branches of a conditional directive that leave different nesting depths
+            let head = *rng.pick(&[
+                "procedure P;\n{$ifdef A}\n{$else}\nprocedure Q;\n{$endif}",
+                "{$ifdef A}\nprocedure P;\n{$else}\nprocedure P;\nprocedure Q;\n{$endif}",
+                "procedure P;\n{$ifdef A}\nprocedure Q;\n{$endif}",
+                "{$ifndef A}\nprocedure P;\nprocedure Q;\n{$else}\nprocedure P;\n{$endif}",
+                "procedure P;\n(*$ifdef A*)\nvar x: Integer;\n{$else}\nprocedure Q;\nvar x: Integer;\n{$endif}",
+            ]);
+            format!("unit U;\nimplementation\n{}\nbegin\n  {}\nend;\nend.\n", head, stmt)
+        }
         0 => format!("{}\n", stmt),
         1 => format!("begin\n  {}\nend;\n", stmt),
         2 => format!("begin\n  if a then\n    {}\nend;\n", stmt),
